@@ -148,7 +148,7 @@ Fixpoint dom (c : pcfg) (x : obj) : bool :=
   | ODot xs tl => nonempty xs && all xs && is_atom tl && atom_ok c tl &&
                   match tl with ONil => false | _ => true end
   | OVec xs => p_array c && all xs
-  | OArr rank rows => p_array c && (p_base c =? 10)%N && negb (p_radix c) && (2 <=? rank)%nat && (rank <=? 1024)%nat &&
+  | OArr rank rows => p_array c && (2 <=? rank)%nat && (rank <=? 1024)%nat &&
                       arr_dims_ok rank rows && arr_check (arr_dims rank rows) rows && all rows
   | _ => atom_ok c x
   end.
